@@ -229,10 +229,22 @@ C10Env ==
            \A j \in 1..Len(Obs.setv) : IsChanged(Obs.setv[j]) =>
               \E i \in 1..Len(Ev.src.triggers) : Ev.src.triggers[i][1] = Obs.setv[j].p)
 
+(* ------------------------------------------------------------------ C17: located diagnosis *)
+\* Ev.cited = row numbers the message cites as [row : n]; Ev.mentions = identifiers of the form (names, types,
+\* list names, referenced names; also lower-cased) that occur in the message as whole words
+C17Env ==
+  /\ Check("error_cites_row",
+           (outcome.status = "error" /\ outcome.kind \in RowLevelErrors) => outcome.row \in ToSet(Ev.cited))
+  /\ Check("error_names_identifier",
+           (outcome.status = "error" /\ outcome.kind \in IdentErrors) =>
+              (IF outcome.kind = "unclosed" THEN UnclosedIdents ELSE TreeErrIdents(nodes)) \cap ToSet(Ev.mentions) # {})
+  /\ Check("no_xform_with_error", Ev.status # "ok" => ~Ev.has_xform)
+
 TEnd == /\ l <= Len(T) /\ Ev.ev = "end"
         /\ Check("no_crash", Ev.status \in {"ok", "pyxform_error"})
         /\ Check("predicted_rejection", outcome.status = "error" => Ev.status = "pyxform_error")
-        /\ Check("accepted_means_spec_done", Ev.status = "ok" => outcome.status = "done")
+        /\ Check("accepted_means_spec_done", (Ev.status = "ok" /\ Prop # "C17fuzz") => outcome.status = "done")
+        /\ (Prop = "C17" => C17Env)
         /\ (Ev.status = "ok" =>
               /\ (Prop = "C04" => C04Env)
               /\ (Prop = "C02" => C02Env)
